@@ -270,6 +270,17 @@ def mutants(spec):
                             s["modules"][mi]["bundles"].append([bname, len(s["bundles"]) - 1, False, False, None, "ctor"])
                             setconn(s, ["bun", bname])
                             yield "width_mismatch", "%s/%s/named_bundle_member" % (depth, kind), s
+                        # ... and of a definition that has every member of the port's bundle plus one more
+                        s = clone()
+                        bdef = copy.deepcopy(spec["bundles"][p[2]])
+                        if not bdef.get("builtin"):
+                            bdef["name"] = bdef["name"] + "x"
+                            bdef["sigs"].append(["zzextra", 1, "plain"])
+                            s["bundles"].append(bdef)
+                            bname = "zzx%d" % len(s["modules"][mi]["bundles"])
+                            s["modules"][mi]["bundles"].append([bname, len(s["bundles"]) - 1, False, False, None, "ctor"])
+                            setconn(s, ["bun", bname])
+                            yield "extra_member", "%s/%s/named_bundle_with_one_member_more" % (depth, kind), s
                         for own in ("orphan_bun", "foreign_bun"):
                             s = clone(); setconn(s, [own, p[2]])
                             yield own.replace("_bun", "") + "_bundle", "%s/%s/direct" % (depth, kind), s
@@ -510,7 +521,7 @@ def shard(idx, n, tier):
         if len(ms) > MAX_MUTANTS:
             res.notes["mutants_beyond_cap_skipped"] += len(ms) - MAX_MUTANTS
             step = len(ms) / MAX_MUTANTS
-            rare = [x for x in ms if "portless" in x[1] or "nested_leaf" in x[1]]  # rare sites are never thinned out
+            rare = [x for x in ms if "portless" in x[1] or "nested_leaf" in x[1] or "one_member_more" in x[1]]  # rare sites are never thinned out
             ms = [ms[int(i * step)] for i in range(MAX_MUTANTS)]
             ms += [x for x in rare if not any(x is y for y in ms)]
         for cls, site, mspec in ms:
